@@ -30,6 +30,7 @@ if [ ! -f $F/.done ] || [ /verif/build.sh -nt $F/.done ]; then
   cc -shared -fPIC -O1 -o $F/libfix_nosoname.so $F/fix.c -Wl,--build-id=sha1
   cp $F/libfix_sha1.so "$F/lib with space.so"
   cp $F/libfix_nosoname.so "$F/$(printf 'libnonascii_\303\251.so')"
+  cp $F/libfix_nosoname.so "$F/$(printf 'libastral_\360\237\246\200_x.so')"
   cp $F/libfix_nosoname.so $F/libver.so.6.0.32
   cp $F/libfix_nosoname.so $F/libver2.so.3.34.2rc5
   cp $F/libfix_sha1.so $F/libdeleted.so
